@@ -52,13 +52,18 @@ def hlp_t(chk, compilers):
         for cxx in compilers:
             rc, out = _compile(cxx, path)
             failed = {}
+            last_err = None
             for l in out.splitlines():
-                if "error" in l and "w_helpers.cpp:" in l:
+                if "error:" in l:
+                    last_err = l.split("error:")[-1].strip()[:160]
+                if "w_helpers.cpp:" in l and ("error" in l or ("note:" in l and "requested here" in l) or
+                                              ("required from here" in l)):
                     try:
                         ln = int(l.split("w_helpers.cpp:")[1].split(":")[0])
                     except ValueError:
                         continue
-                    failed.setdefault(ln, l.split("error:")[-1].strip()[:160])
+                    if last_err:
+                        failed.setdefault(ln, last_err)
             if rc != 0 and not failed:
                 chk.incomplete("helper witness does not compile with %s: %s" % (cxx, out[:300]))
             n = 0
